@@ -8,8 +8,10 @@ World (heights concrete unless a harness says otherwise):
 
 Unspent map at P (owners concrete, values symbolic):
     (T10,0) -> K0   (T10,1) -> K1   (T11,0) -> K0   (T12,0) -> K2
-Only in R's map (spent by P):      (T14,0) -> K0   "spent earlier"
-Only in F's map (other fork):      (T13,0) -> K0   "other-fork output"
+Spent by P (still unspent on F):    (T14,0) -> K0   "spent earlier"
+Only in F's map (other fork):      F's reward output (T3,0) -> K3   "other-fork output"
+The blocks carry the transactions that create / spend these outputs, so replaying R, P (or R, F) from scratch
+reproduces the maps.
 Reference pool for an input:  0..3 the four unspent ids T10,T10,T11,T12 (by id; the index is a free
 symbolic 32-bit number, so (T10,7) is a missing output), 4 spent-earlier T14, 5 other-fork T13,
 6 never-existed T15, 7 this block's reward transaction, 8 this block's first ordinary transaction,
@@ -30,7 +32,7 @@ INITIAL_SUBSIDY = 1_000_000_000
 HALVING = 1_050_000
 RETARGET = 10_080
 
-POOL_IDS = [tok(TX, 10), tok(TX, 10), tok(TX, 11), tok(TX, 12), tok(TX, 14), tok(TX, 13), tok(TX, 15), None, None, ZERO32]
+POOL_IDS = [tok(TX, 10), tok(TX, 10), tok(TX, 11), tok(TX, 12), tok(TX, 14), tok(TX, 3), tok(TX, 15), None, None, ZERO32]
 POOL_NAMES = ["unspent-a", "unspent-b", "unspent-c", "unspent-d", "spent-earlier", "other-fork", "never-existed",
               "this-block-reward", "this-block-tx1", "null"]
 UNSPENT_AT_P = [(tok(TX, 10), 0, 0), (tok(TX, 10), 1, 1), (tok(TX, 11), 0, 0), (tok(TX, 12), 0, 2)]  # (id, index, owner)
@@ -46,9 +48,10 @@ def ref_subsidy(h: int) -> int:
 
 
 class World:
-    def __init__(self, real: bool = False, networking: bool = False, h: int = 2, served_head: str = "P"):
+    def __init__(self, real: bool = False, networking: bool = False, h: int = 2, served_head: str = "P", lro: bool = False):
         self.env = Env(real=real, networking=networking)
         self.real = real
+        self.lro = lro                  # hash oracles hand out 32-byte tokens (needed when objects pass through the fixed-width decoders)
         self.h = h                      # height of the candidate
         env = self.env
         dt, sg, cons = env.dt, env.sg, env.cons
@@ -92,9 +95,12 @@ class World:
                 # a world at a large height has no real ancestors to sample from: the oracle stands in (stated in the replay)
                 self._install_sample_oracle()
         else:
-            from symlib.stubs.oracles import TI, install_hashes
+            from symlib.stubs.oracles import TI, LRO, install_hashes
             from symlib.stubs import idealsig
-            self.sha256d, self.blake2, self.scrypt = TI(b"\x01"), TI(b"\x02"), TI(b"\x03")
+            if self.lro:
+                self.sha256d, self.blake2, self.scrypt = LRO(0x07), LRO(0x08), LRO(0x09)
+            else:
+                self.sha256d, self.blake2, self.scrypt = TI(b"\x01"), TI(b"\x02"), TI(b"\x03")
             install_hashes(self.sha256d, self.blake2, self.scrypt)
             self.ideal = idealsig.install()
             self._install_sample_oracle()
@@ -126,19 +132,34 @@ class World:
 
     # -- chain state ----------------------------------------------------------------------------
     def state(self, pv: List[int], fv: int = 9, pts: Any = None, ptarget: Any = None, start_ts: Any = None) -> Any:
-        """CoinState holding R, P, F. pv = the four symbolic values of P's unspent outputs; fv = value only the sibling
-        fork holds; pts / ptarget = parent's timestamp / target (symbolic allowed); start_ts = (ts on P's view, ts on F's
-        view) of the block at height h - 10080 (the retarget period's first block), which differs between the two views."""
+        """CoinState holding R, P, F, consistent with the blocks' transactions (so that a replay from the root gives the
+        same maps). pv = the four symbolic values of P's unspent outputs; fv = value of the sibling fork's reward output
+        (the only output that exists on F but not on P); pts / ptarget = parent's timestamp / target (symbolic allowed);
+        start_ts = (ts on P's view, ts on F's view) of the block at height h - 10080 (the retarget period's first
+        block), which differs between the two views."""
         env, dt = self.env, self.dt
         k = self.keys
-        if pts is not None or ptarget is not None:
-            self.P = env.block(self.h - 1, self.R.hash(), [self.cbP], tok(BLK, 1), ts=2000 if pts is None else pts,
-                               target=MAXTARGET if ptarget is None else ptarget)
-        outs_P = [((dt.OutputReference(i, n)), dt.Output(pv[j], k[o])) for j, (i, n, o) in enumerate(UNSPENT_AT_P)]
+        h = self.h
+        # transactions that created the outputs (no inputs: their origin is outside the window the harness looks at)
+        t10 = dt.Transaction([], [dt.Output(pv[0], k[0]), dt.Output(pv[1], k[1])], cached_hash=tok(TX, 10))
+        t11 = dt.Transaction([], [dt.Output(pv[2], k[0])], cached_hash=tok(TX, 11))
+        t12 = dt.Transaction([], [dt.Output(pv[3], k[2])], cached_hash=tok(TX, 12))
+        t14 = dt.Transaction([], [dt.Output(7, k[0])], cached_hash=tok(TX, 14))
+        s14 = dt.Transaction([dt.Input(dt.OutputReference(tok(TX, 14), 0), self.sg.SECP256k1Signature(bytes([0x77]) * 64))], [],
+                             cached_hash=tok(TX, 16))                    # P spends (T14,0): "spent earlier"
+        self.cbF = env.coinbase(h - 1, [dt.Output(fv, k[3])], tok(TX, 3))
+        self.R = env.block(h - 2, ZERO32, [self.cbR, t10, t11, t12, t14], tok(BLK, 0), ts=1000)
+        self.P = env.block(h - 1, self.R.hash(), [self.cbP, s14], tok(BLK, 1), ts=2000 if pts is None else pts,
+                           target=MAXTARGET if ptarget is None else ptarget)
+        self.F = env.block(h - 1, self.R.hash(), [self.cbF], tok(BLK, 2), ts=2001)
+        outs_P = [((dt.OutputReference(i, n)), o) for (i, n, o) in
+                  [(tok(TX, 10), 0, t10.outputs[0]), (tok(TX, 10), 1, t10.outputs[1]), (tok(TX, 11), 0, t11.outputs[0]),
+                   (tok(TX, 12), 0, t12.outputs[0])]]
         cb = lambda tx: (dt.OutputReference(tx.hash(), 0), tx.outputs[0])  # noqa
-        uR = env.mk_map(outs_P + [(dt.OutputReference(tok(TX, 14), 0), dt.Output(7, k[0])), cb(self.cbR)])
-        uP = env.mk_map(outs_P + [cb(self.cbR), cb(self.cbP)])
-        uF = env.mk_map(outs_P[:2] + [(dt.OutputReference(tok(TX, 13), 0), dt.Output(fv, k[0])), cb(self.cbR), cb(self.cbF)])
+        e14 = (dt.OutputReference(tok(TX, 14), 0), t14.outputs[0])
+        uR = env.mk_map([cb(self.cbR)] + outs_P + [e14])
+        uP = env.mk_map([cb(self.cbR)] + outs_P + [cb(self.cbP)])
+        uF = env.mk_map([cb(self.cbR)] + outs_P + [e14, cb(self.cbF)])
         R, P, F = self.R, self.P, self.F
         exP: List[Tuple[Any, Any]] = []
         exF: List[Tuple[Any, Any]] = []
